@@ -93,14 +93,15 @@ type Interp struct {
 	now         *smt.Term // frozen clock: symbolic instant + harness-controlled advances
 	timerBudget int
 
-	started    time.Time
-	uniques    []uniqueEntry
-	freshTerms []*smt.Term
-	stubs      map[string]Value
-	tmpDefined map[string]bool
-	allocSeen  map[string]bool
-	funcsSeen  map[string]bool
-	hangCheck  bool
+	started     time.Time
+	loopBoundIn map[string]int
+	uniques     []uniqueEntry
+	freshTerms  []*smt.Term
+	stubs       map[string]Value
+	tmpDefined  map[string]bool
+	allocSeen   map[string]bool
+	funcsSeen   map[string]bool
+	hangCheck   bool
 }
 
 // Input is one value drawn from the harness tape.
@@ -260,6 +261,43 @@ func (in *Interp) Concretize(t *smt.Term, bound int, what string) int {
 	in.trace = append(in.trace, v<<1)
 	in.assume(in.ctx.Eq(t, in.ctx.BV(uint64(v), t.W)))
 	return v
+}
+
+// Unique returns the constant t must equal under the path condition, if the
+// solver shows there is exactly one, and t otherwise. It never forks. Used to
+// stop index terms from nesting (table[table[table[i]]]...) when the code has
+// already pinned the index down, e.g. by reading the sector it names.
+func (in *Interp) Unique(t *smt.Term) *smt.Term {
+	if t.IsConst() {
+		return t
+	}
+	if in.pos < len(in.prefix) {
+		d := in.prefix[in.pos]
+		in.pos++
+		in.trace = append(in.trace, d)
+		if d == -1 {
+			return t
+		}
+		k := in.ctx.BV(uint64(d>>1), t.W)
+		in.assume(in.ctx.Eq(t, k))
+		return k
+	}
+	in.pos++
+	tv := in.tmpVar(t)
+	r, m := in.sol.CheckModel([]*smt.Term{tv})
+	if r == smt.Sat {
+		v := m[tv.Name]
+		if v < 1<<40 {
+			k := in.ctx.BV(v, t.W)
+			if in.sol.CheckAssuming(in.ctx.Not(in.ctx.Eq(t, k))) == smt.Unsat {
+				in.trace = append(in.trace, int(v)<<1|1)
+				in.assume(in.ctx.Eq(t, k))
+				return k
+			}
+		}
+	}
+	in.trace = append(in.trace, -1)
+	return t
 }
 
 // tmpVar returns a variable equal to t (so get-value can name it).
@@ -652,8 +690,14 @@ func (in *Interp) runFrame(fr *frame) {
 			fr.visits = map[int]int{}
 		}
 		fr.visits[b.Index]++
-		if fr.visits[b.Index] > in.loopBound {
-			panic(unwindFail{fmt.Sprintf("loop bound %d exceeded in %s block %d (%s)", in.loopBound, fr.fn, b.Index, in.site())})
+		lb := in.loopBound
+		if in.loopBoundIn != nil {
+			if v, ok := in.loopBoundIn[fr.fn.Name()]; ok {
+				lb = v
+			}
+		}
+		if fr.visits[b.Index] > lb {
+			panic(unwindFail{fmt.Sprintf("loop bound %d exceeded in %s block %d (%s)", lb, fr.fn, b.Index, in.site())})
 		}
 		// phis first (simultaneous)
 		nphi := 0
@@ -686,7 +730,7 @@ func (in *Interp) runFrame(fr *frame) {
 			if p := instr.Pos(); p.IsValid() {
 				fr.pos = p
 			}
-			if traceOn {
+			if traceOn && (traceMode != "replay" || in.eng.ReplayModel != nil) {
 				fmt.Fprintf(os.Stderr, "  [%s b%d] %s\n", fr.fn.Name(), b.Index, instr.String())
 			}
 			switch x := instr.(type) {
@@ -724,6 +768,13 @@ func (in *Interp) runFrame(fr *frame) {
 				panic(in.mkPanic(v, "panic: "+in.panicText(v)))
 			default:
 				in.visit(fr, instr)
+				if traceOn && (traceMode != "replay" || in.eng.ReplayModel != nil) {
+					if v, ok := instr.(ssa.Value); ok {
+						if t, ok := fr.env[v].(*smt.Term); ok && t != nil && t.IsConst() {
+							fmt.Fprintf(os.Stderr, "      %s = %d\n", v.Name(), int64(t.Val))
+						}
+					}
+				}
 			}
 			if jumped {
 				break
@@ -858,7 +909,8 @@ func (in *Interp) callMethod(recv IfaceV, name string, args ...Value) Value {
 func constantBool(c *ssa.Const) bool     { return c.Value.String() == "true" }
 func constantString(c *ssa.Const) string { return constantStringVal(c) }
 
-var traceOn = os.Getenv("GOSMT_TRACE") != ""
+var traceMode = os.Getenv("GOSMT_TRACE")
+var traceOn = traceMode != ""
 
 func dbg(format string, args ...interface{}) {
 	if os.Getenv("GOSMT_DEBUG") != "" {
